@@ -14,8 +14,28 @@
                         every pre-existing object is untouched, header strings only grow, and the
                         child references of block bi are [crel]-related to those of b
    [enum_ok enum]       std::set<NiRef*> visits every reference of a block exactly once
-   [fin S0 n d r]       the source below r has depth at most d (no cycle) *)
-From NiflyVerif Require Import Res GraphModel GraphInv CopyModel CloneModel CloneProofs CloneExtras.
+   [fin S0 n d r]       the source below r has depth at most d (no cycle)
+
+   The node hierarchy CloneShape rebuilds (the cloneNodes lambda, NifFile.cpp:1373-1426); proofs:
+   Clone/CloneHier.v, CloneHierProofs.v, CloneHierTotal.v, instances: CloneHierExamples.v.
+   [node_name_at f i]   Some n: block i of f is a node named n
+   [kids_at f i]        the childRefs array of the node at index i ([] when there is no node)
+   [crefs_at/ptrs_at f i] all child references / pointers of block i
+   [HWF st]             the destination is well formed: counters agree, no object in two slots, every
+                        node's childRefs window lies inside its reference list
+   [SrcWinB s]          the same windows in the source, and where the emptied childRefs of a
+                        CloneNamedNode result sits lies inside the result's reference list
+   [walk_kids src rec ks st]  the loop over the children of a source node (the model's own anonymous
+                        fix, named; C14_hier_walk_is_model_term)
+   [src_walk fuel s ks] the pre-order listing of the source nodes below the nodes ks
+   [spn s sn]           the name of GetParentNode(sn) in the source (None: no parent / unnamed)
+   [ptarget d root o]   the first node of d named o, the root when there is none (or o = None)
+   [Steps s root st vs st']  st' is reached from st by one cloneNodes step per source node of vs, in
+                        order, each step being one of: name absent -> clone appended as last child of
+                        [ptarget]; name present under another parent and target not the root -> the
+                        node is moved; otherwise nothing (CloneHier.StepCases); HWF holds at every step *)
+From NiflyVerif Require Import Res GraphModel GraphInv CopyModel CloneModel CloneProofs CloneExtras
+  CloneHier CloneHierProofs CloneHierTotal CloneHierExamples.
 Local Open Scope N_scope.
 
 (* clone_children_closed, source = another model (any consistent model, any size, any visiting
@@ -172,4 +192,222 @@ Proof.
   split; [exact pt_src_inv|]. split; [exact HW|]. split; [reflexivity|]. split; [exact Hcl|].
   eexists. split; [vm_compute; reflexivity|].
   apply (clone_children_other pt_src 0 enum_canon enum_canon_ok pt_src_inv 3 pt_dst 3 (mkBlock 13 1 [1] [])); auto.
+Qed.
+
+(* ============================================================================================== *)
+(* The node hierarchy rebuilt by CloneShape (cloneNodes). All statements hold for every source and
+   destination model the model accepts (no size bound) and every fuel; "whenever the walk returns". *)
+
+(* the named walk IS the model's term (definitional) *)
+Theorem C14_hier_walk_is_model_term : forall src fuel st root sn,
+  clone_nodes src (S fuel) st root sn =
+  bind (clone_node_step src st root sn) (fun r =>
+    let '(st1, kids) := r in walk_kids src (fun st k => clone_nodes src fuel st root k) kids st1).
+Proof. exact clone_nodes_unfold. Qed.
+Print Assumptions C14_hier_walk_is_model_term.
+
+(* from the call of CloneShape (source = another model) to the walk: the invariant is carried through
+   AddBlock, AddBlockRef, CloneChildren, SetGeomData and boneRefs.Clear() to the state [st5] where the
+   walk over the children of the source root starts; the walk is a [Steps] run over the pre-order
+   listing of the source's node tree; the bone list is then rebuilt in [st6] from the source shape's
+   bone names *)
+Theorem C14_hier_clone_shape_stages : forall compat s empty enum fuel st si name st' did ri rb sri srb0,
+  get_root (cfile st) = Some (ri, rb) -> get_root s = Some (sri, srb0) ->
+  HWF st -> SrcWinB s ->
+  clone_shape compat (Some s) empty enum fuel st si name = Ok (st', did) ->
+  exists (sb : block) (st5 st6 : cst) (cont : option (N * block * N * N)),
+    vget (blocks (fh s)) si = Some sb /\
+    HWF st5 /\ ri < vlen (bl st5) /\ vlen (bl st) < vlen (bl st5) /\
+    walk_kids (Some s) (fun st k => clone_nodes (Some s) fuel st ri k) (kids_at s sri) st5 = Ok st6 /\
+    Steps s ri st5 (src_walk fuel s (kids_at s sri)) st6 /\
+    match cont with
+    | Some (ci, _, _, _) => set_bone_ptrs (cfile st6) ci (rebuild_bones (cfile st6) (shape_bone_names s sb))
+    | None => Ok (cfile st6)
+    end = Ok (cfile st') /\ cnext st' = cnext st6.
+Proof. exact clone_shape_other_stages_hwf. Qed.
+Print Assumptions C14_hier_clone_shape_stages.
+
+(* one cloneNodes call / the walk over a list of children, as a [Steps] run *)
+Theorem C14_hier_nodes_steps : forall s, SrcWin s -> forall root fuel st sn snb st',
+  HWF st -> root < vlen (bl st) ->
+  vget (blocks (fh s)) sn = Some snb -> is_node s snb = true ->
+  clone_nodes (Some s) fuel st root sn = Ok st' -> Steps s root st (src_nodes fuel s sn) st'.
+Proof. exact clone_nodes_steps. Qed.
+Print Assumptions C14_hier_nodes_steps.
+
+Theorem C14_hier_walk_steps : forall s, SrcWin s -> forall root fuel ks st st',
+  HWF st -> root < vlen (bl st) ->
+  walk_kids (Some s) (fun st k => clone_nodes (Some s) fuel st root k) ks st = Ok st' ->
+  Steps s root st (src_walk fuel s ks) st'.
+Proof. exact walk_kids_steps. Qed.
+Print Assumptions C14_hier_walk_steps.
+
+(* (a) every visited source node's name is carried by a node of the destination afterwards ... *)
+Theorem C14_hier_bones_found : forall s root st vs st', Steps s root st vs st' ->
+  forall sn bone, In sn vs -> node_name_at s sn = Some bone -> find_node (cfile st') bone <> None.
+Proof. exact steps_found. Qed.
+Print Assumptions C14_hier_bones_found.
+
+(* ... exactly once when it was absent: every block appended by the walk is a node carrying the name
+   of a visited source node, and NO other block of the destination, old or new, carries that name
+   (so a name that existed is reused, never duplicated) *)
+Theorem C14_hier_created_once : forall s root st vs st', Steps s root st vs st' ->
+  forall n, vlen (bl st) <= n < vlen (bl st') ->
+  exists sn bone, In sn vs /\ node_name_at s sn = Some bone /\
+    node_name_at (cfile st') n = Some bone /\
+    (forall i, node_name_at (cfile st') i = Some bone -> i = n).
+Proof. exact steps_new_unique. Qed.
+Print Assumptions C14_hier_created_once.
+
+(* the list the clone's bone pointers are rebuilt from names the same bones in the same order, each a
+   node of the destination, when every bone name of the source shape is the name of a visited node *)
+Theorem C14_hier_bone_list : forall s, SrcWin s -> forall root st vs st' names,
+  Steps s root st vs st' ->
+  (forall n, In n names -> exists sn, In sn vs /\ node_name_at s sn = Some n) ->
+  map (node_name_at (cfile st')) (rebuild_bones (cfile st') names) = map Some names.
+Proof. exact bones_exist_after_walk. Qed.
+Print Assumptions C14_hier_bone_list.
+
+(* (b) a created node hangs, in the FINAL destination, under the first node named like its source
+   parent (GetParentNode in the source), under the destination root when there is none. Side
+   conditions: the name was absent, it is visited once, and no node named like the parent is visited
+   at or after the node (in a tree the parent comes first) *)
+Theorem C14_hier_created_parent : forall s root st vs st', Steps s root st vs st' ->
+  forall vs1 sn vs2 bone, vs = vs1 ++ sn :: vs2 -> node_name_at s sn = Some bone ->
+  find_node (cfile st) bone = None ->
+  (forall sn', In sn' (vs1 ++ vs2) -> node_name_at s sn' <> Some bone) ->
+  (forall pn sn', spn s sn = Some pn -> In sn' (sn :: vs2) -> node_name_at s sn' <> Some pn) ->
+  exists n, vlen (bl st) <= n < vlen (bl st') /\ node_name_at (cfile st') n = Some bone /\
+            In n (kids_at (cfile st') (ptarget (cfile st') root (spn s sn))).
+Proof. exact steps_new_parent. Qed.
+Print Assumptions C14_hier_created_parent.
+
+(* (c) nothing that existed is removed, moved to another index, renamed or rewritten: same object,
+   class, pointers, strings, payload, node-ness and name; a block that is not a node is exactly what
+   it was; header strings untouched *)
+Theorem C14_hier_existing_kept : forall s root st vs st', Steps s root st vs st' ->
+  vlen (bl st) <= vlen (bl st') /\ fstrs (cfile st') = fstrs (cfile st) /\
+  forall i b, vget (bl st) i = Some b ->
+    exists b', vget (bl st') i = Some b' /\ uid b' = uid b /\ tname b' = tname b /\ ptrs b' = ptrs b /\
+      astrs (heap (cfile st') (uid b')) = astrs (heap (cfile st) (uid b)) /\
+      atok (heap (cfile st') (uid b')) = atok (heap (cfile st) (uid b)) /\
+      is_node (cfile st') b' = is_node (cfile st) b /\ name_of (cfile st') b' = name_of (cfile st) b /\
+      (is_node (cfile st) b = false -> b' = b /\ heap (cfile st') (uid b') = heap (cfile st) (uid b)).
+Proof. exact steps_existing_kept. Qed.
+Print Assumptions C14_hier_existing_kept.
+
+(* (c) parents: whatever does not carry the name of a visited source node is a child of exactly the
+   nodes it was a child of *)
+Theorem C14_hier_parent_kept : forall s root st vs st', Steps s root st vs st' ->
+  forall c, c <> NPOS -> c < vlen (bl st) ->
+  (forall sn bone, In sn vs -> node_name_at s sn = Some bone -> node_name_at (cfile st) c <> Some bone) ->
+  forall p, In c (kids_at (cfile st') p) <-> In c (kids_at (cfile st) p).
+Proof. exact steps_parent_kept. Qed.
+Print Assumptions C14_hier_parent_kept.
+
+(* ... but a destination node that DOES carry a visited name can be re-parented (the C++ moves an
+   existing node below the node named like its source parent): "never re-parented" is false *)
+Theorem C14_existing_node_reparented_refuted :
+  exists s st vs st' root c p p',
+    HWF st /\ SrcWin s /\ Steps s root st vs st' /\
+    c < vlen (bl st) /\ In c (kids_at (cfile st) p) /\ ~ In c (kids_at (cfile st') p) /\
+    p' <> p /\ In c (kids_at (cfile st') p').
+Proof. exact existing_node_reparented_refuted. Qed.
+Print Assumptions C14_existing_node_reparented_refuted.
+
+(* (e) child references from index [lo] on that were empty or inside the destination are so
+   afterwards (lo = 0: the whole destination; lo = the old block count: the created nodes alone, with
+   no hypothesis); the created nodes hold no pointer at all *)
+Theorem C14_hier_refs_closed : forall s root st vs st' lo, Steps s root st vs st' ->
+  (forall i, lo <= i -> Forall (ref_ok (vlen (bl st))) (crefs_at (cfile st) i)) ->
+  (forall i, lo <= i -> Forall (ref_ok (vlen (bl st'))) (crefs_at (cfile st') i)).
+Proof. exact steps_closed. Qed.
+Print Assumptions C14_hier_refs_closed.
+
+Theorem C14_hier_created_no_ptrs : forall s root st vs st', Steps s root st vs st' ->
+  forall n, vlen (bl st) <= n < vlen (bl st') -> Forall (fun r => r = NPOS) (ptrs_at (cfile st') n).
+Proof. exact steps_new_ptrs. Qed.
+Print Assumptions C14_hier_created_no_ptrs.
+
+(* (d) source = the destination itself (srcNif == this), as repaired (known finding
+   C14-same-model-duplicate-names-reparented, fixed): CloneShape performs NO walk. For ALL models, no
+   hypothesis on names: every pre-existing block keeps its name and its children - hence every node its
+   parent -, except that the clone (did = the old block count) is appended to the children of the
+   source shape's parent [po] (source = another model: the source is a read-only parameter of the
+   model; that the C++ does not write it is observed by the correspondence check) *)
+Theorem C14_hier_same_model_kept : forall compat empty enum fuel st si name st' did,
+  HWF st -> clone_shape compat None empty enum fuel st si name = Ok (st', did) ->
+  did = vlen (bl st) /\ vlen (bl st) < vlen (bl st') /\
+  (forall i, i < vlen (bl st) -> node_name_at (cfile st') i = node_name_at (cfile st) i) /\
+  exists po : option N,
+    (forall p, po = Some p -> p < vlen (bl st) -> In si (kids_at (cfile st) p)) /\
+    (forall i, i < vlen (bl st) ->
+       kids_at (cfile st') i = kids_at (cfile st) i ++ match po with Some p => if i =? p then [did] else [] | None => [] end).
+Proof. exact same_model_hierarchy_kept. Qed.
+Print Assumptions C14_hier_same_model_kept.
+
+(* the walk the C++ no longer performs inside one model changed nothing when node names are pairwise
+   different: the repair does not alter the behaviour on such models *)
+Theorem C14_hier_same_model_identity : forall fuel root ks st st',
+  names_unique (cfile st) ->
+  walk_kids None (fun st k => clone_nodes None fuel st root k) ks st = Ok st' -> st' = st.
+Proof. exact same_model_walk_identity. Qed.
+Print Assumptions C14_hier_same_model_identity.
+
+(* the former witness of the defect (two nodes of one name): nothing but the appended clone changes *)
+Example C14_same_model_duplicate_names_kept :
+  exists st' did,
+    HWF dup_st /\ ~ names_unique (cfile dup_st) /\
+    clone_shape (fun _ _ => false) None 0 enum_canon 5 dup_st 4 300 = Ok (st', did) /\ did = 5 /\
+    map (kids_at (cfile dup_st)) [0; 1; 2; 3] = [[1; 2; 4]; []; [3]; []] /\
+    map (kids_at (cfile st')) [0; 1; 2; 3] = [[1; 2; 4; did]; []; [3]; []] /\
+    map (node_name_at (cfile st')) [0; 1; 2; 3] = map (node_name_at (cfile dup_st)) [0; 1; 2; 3].
+Proof. exact same_model_duplicate_names_kept. Qed.
+
+(* a bone that is not below the source root is not walked: the clone's bone list drops it *)
+Theorem C14_unreachable_bone_dropped_refuted :
+  exists s st sb st' did db,
+    vget (blocks (fh s)) 2 = Some sb /\ shape_bone_names s sb = [101] /\
+    clone_shape (fun _ _ => false) (Some s) 0 enum_canon 5 st 2 300 = Ok (st', did) /\
+    vget (bl st') did = Some db /\ shape_bone_names (cfile st') db = [] /\
+    find_node (cfile st') 101 = None.
+Proof. exact unreachable_bone_dropped_refuted. Qed.
+Print Assumptions C14_unreachable_bone_dropped_refuted.
+
+(* the walk returns: every source node named, node tree of depth <= fuel below the walked nodes,
+   destination root a node *)
+Theorem C14_hier_walk_total : forall s, SrcWin s -> nblocks (fh s) <= vlen (blocks (fh s)) ->
+  (forall i b, vget (blocks (fh s)) i = Some b -> is_node s b = true -> name_of s b <> None) ->
+  forall root fuel ks st,
+  HWF st -> node_at (cfile st) root ->
+  (forall k, In k ks -> src_node s k = true -> sfin s fuel k) ->
+  exists st', walk_kids (Some s) (fun st k => clone_nodes (Some s) fuel st root k) ks st = Ok st'.
+Proof. exact walk_kids_total. Qed.
+Print Assumptions C14_hier_walk_total.
+
+(* hypotheses are satisfiable on a non-trivial instance: source Root -> B1 -> B2 -> B3 (a three-level
+   bone chain) with a shape skinned to the three; destination Root -> B2 (one bone already present).
+   The walk visits B1 B2 B3, is a [Steps] run from a well-formed destination, ends in the hierarchy
+   Root -> B1 -> B2 -> B3 with B1, B3 created and B2 reused; steps_new_parent applies to B3 and B1;
+   the totality theorem applies; CloneShape as a whole returns with the bone list B1 B2 B3 *)
+Example C14_hier_hypotheses_satisfiable :
+  HWF ex_dst /\ SrcWinB ex_src /\
+  src_walk 5 ex_src (kids_at ex_src 0) = [1; 2; 3] /\
+  Steps ex_src 0 ex_dst [1; 2; 3] ex_final /\
+  map (fun i => (node_name_at (cfile ex_final) i, kids_at (cfile ex_final) i)) [0; 1; 2; 3] =
+    [(Some 100, [NPOS; 2]); (Some 102, [3]); (Some 101, [1]); (Some 103, [])] /\
+  (exists n, vlen (bl ex_dst) <= n < vlen (bl ex_final) /\ node_name_at (cfile ex_final) n = Some 103 /\
+             In n (kids_at (cfile ex_final) 1)) /\
+  (exists n, vlen (bl ex_dst) <= n < vlen (bl ex_final) /\ node_name_at (cfile ex_final) n = Some 101 /\
+             In n (kids_at (cfile ex_final) 0)) /\
+  (exists st', walk_kids (Some ex_src) (fun st k => clone_nodes (Some ex_src) 3 st 0 k) (kids_at ex_src 0) ex_dst = Ok st') /\
+  (exists ri rb sri srb st' did db,
+    get_root (cfile ex_dst) = Some (ri, rb) /\ get_root ex_src = Some (sri, srb) /\
+    HWF ex_dst /\ SrcWinB ex_src /\
+    clone_shape (fun _ _ => false) (Some ex_src) 0 enum_canon 5 ex_dst 4 300 = Ok (st', did) /\
+    vget (bl st') did = Some db /\ shape_bone_names (cfile st') db = [101; 102; 103]).
+Proof.
+  split; [exact ex_dst_hwf|]. split; [exact ex_src_winb|]. split; [exact ex_preorder|]. split; [exact ex_steps|].
+  split; [exact ex_final_hierarchy|]. split; [exact ex_new_parent_applies|]. split; [exact ex_new_parent_applies_root|].
+  split; [exact ex_total_applies|exact ex_clone_shape].
 Qed.
